@@ -89,7 +89,11 @@ func genC10(t *rapid.T) C10Case {
 					}
 				}
 			}
-			switch g.intn("kinds", 0, 6) {
+			switch g.intn("kinds", 0, 8) {
+			case 4: // the empty group is the core API group, not the Gateway API's: nothing of the Gateway API is allowed
+				l.Kinds = []world.RouteKind{{Group: sp(""), Kind: "HTTPRoute"}}
+			case 5:
+				l.Kinds = []world.RouteKind{{Group: sp(""), Kind: "TCPRoute"}, {Group: sp(gwGroup), Kind: "TCPRoute"}}
 			case 0:
 				l.Kinds = []world.RouteKind{{Kind: "HTTPRoute"}}
 			case 1:
@@ -224,8 +228,14 @@ func genC10(t *rapid.T) C10Case {
 					op = world.Op{Op: "update", Obj: n}
 				default: // an object leaves, or one that left comes back as it was
 					var present, gone []*world.Obj
+					epOp := g.chance("epop", 40)
 					for _, o := range c.Objs {
-						if o.Kind != world.KHTTPRoute && o.Kind != world.KTCPRoute && o.Kind != world.KGateway {
+						// (also the Endpoints / Service objects the routes reference: a route admitted while the endpoints
+						// of its service do not exist yet gets its servers when they arrive)
+						if o.Kind != world.KHTTPRoute && o.Kind != world.KTCPRoute && o.Kind != world.KGateway && o.Kind != world.KEndpoints && o.Kind != world.KService {
+							continue
+						}
+						if (o.Kind == world.KEndpoints || o.Kind == world.KService) != epOp {
 							continue
 						}
 						if g.W.Objs[o.Key()] != nil {
